@@ -699,8 +699,17 @@ func c12Build(v *c12Val, r *fw.RNG) *lisp.LVal {
 		}
 	case c12KList:
 		cells := make([]*lisp.LVal, 0, len(v.Kids))
+		built := map[*c12Val]*lisp.LVal{}
 		for _, k := range v.Kids {
-			cells = append(cells, c12Build(k, r))
+			// the same model node twice among the children: sometimes the very same
+			// object twice (shared substructure is not a cycle)
+			if b, ok := built[k]; ok && r.Bool() {
+				cells = append(cells, b)
+				continue
+			}
+			b := c12Build(k, r)
+			built[k] = b
+			cells = append(cells, b)
 		}
 		switch {
 		case q >= 1 && r.Bool():
